@@ -390,6 +390,16 @@ func (s *Sim) runScript(i int) {
 		s.probe("script-noconn")
 		return
 	}
+	if o.Kind == "pkt" || o.Kind == "raw" {
+		// a broker says nothing before it has accepted the CONNECT
+		c.mu.Lock()
+		got := c.gotConnect
+		c.mu.Unlock()
+		if !got && s.sc.Cfg.Client != "base" {
+			s.probe("script-before-connect")
+			return
+		}
+	}
 	switch o.Kind {
 	case "pkt":
 		c.send(o.Pkt, nil, o.Class, 0, o.Frag, o.EOFAfter)
